@@ -334,6 +334,16 @@ func wConfig(prop, tier string) *Config {
 			}
 			cfg.Phases = append(cfg.Phases, Phase{Name: fmt.Sprintf("distribution-params-depth%d", d), Roots: []string{"R8"}, Ops: append(append([]string{}, first...), second...), First: first, Second: second, Depth: d, Dev: 3})
 		}
+		// ALIASED ASSETS (root R22): lookups by denom and by base denom disagree about the decimals of every asset;
+		// outages, fee conversions, claims, position and order activity from there
+		{
+			al := []string{"nofeed", "nofeed_2d", "empty", "gap_2d", "fee_tx_uelys", "fee_tx_uatom", "fee_tx_uelys_nofeed", "swap_in_p2_usdc_elys_L", "swap_in_p1_usdc_atom_D", "mc_claim_lp1", "perp_open_long_t3_x5", "perp_bot_close_all", "llp_bot_close_all", "join_p2_all_t1", "tier_set_portfolio_t1"}
+			d := 2
+			if thorough {
+				d = 3
+			}
+			cfg.Phases = append(cfg.Phases, Phase{Name: fmt.Sprintf("aliased-assets-depth%d", d), Roots: []string{"R22"}, Ops: al, Depth: d, Dev: 4})
+		}
 		// ORACLE OUTAGE in progress (root R9): user activity in blocks WITHOUT a price feed (composites with
 		// nofeed), also after governance switched Eden rewards on for the constant-product pool
 		{
@@ -434,6 +444,6 @@ var paramPhases = map[string]paramPhase{
 }
 
 var sameBlockSets = map[string][]string{
-	"C01": {"swap_in_p1_usdc_atom_L", "swap_out_p1_atom_usdc_D", "join_p1_all_t1", "exit_p1_10pct_lp1", "feed_ext_liquidity_p1_deep", "perp_open_long_t3_x5", "fee_tx_uatom"},
+	"C01": {"swap_in_p1_usdc_atom_L", "swap_out_p1_atom_usdc_D", "join_p1_all_t1", "exit_p1_10pct_lp1", "feed_ext_liquidity_p1_deep", "perp_open_long_t3_x5", "fee_tx_uatom", "swap_by_denom_p1"},
 	"C02": {"join_p2_all_t1", "join_p2_all_lp2", "exit_p2_half_lp1", "swap_in_p2_elys_usdc_D", "fee_tx_uelys", "fee_tx_uatom", "join_p1_all_t1", "exit_p1_10pct_lp1"},
 }
